@@ -360,7 +360,7 @@ class H2Protocol:
                     # stream that is processed, this one is beyond it.
                     continue
                 elif self.context.terminated.is_set():
-                    self.connection.reset_stream(event.stream_id)
+                    self._refuse_stream(event.stream_id, h2.errors.ErrorCodes.NO_ERROR)
                     self.connection.update_settings(
                         {h2.settings.SettingCodes.MAX_CONCURRENT_STREAMS: 0}
                     )
@@ -370,9 +370,7 @@ class H2Protocol:
                     if name in {b":method", b":path"}
                 ):
                     # The method and path must be ASCII, refuse only this stream
-                    self.connection.reset_stream(
-                        event.stream_id, h2.errors.ErrorCodes.PROTOCOL_ERROR
-                    )
+                    self._refuse_stream(event.stream_id, h2.errors.ErrorCodes.PROTOCOL_ERROR)
                 else:
                     await self._create_stream(event)
                     await self.send(Updated(idle=self.idle))
@@ -426,6 +424,12 @@ class H2Protocol:
                 await self.send(Closed())
         await self._flush()
 
+    def _refuse_stream(self, stream_id: int, error_code: h2.errors.ErrorCodes) -> None:
+        try:
+            self.connection.reset_stream(stream_id, error_code)
+        except h2.exceptions.StreamClosedError:
+            pass  # The client has reset it itself (further on in the same read)
+
     async def _flush(self) -> None:
         data = self.connection.data_to_send() + self.goaway
         self.goaway = b""
@@ -477,7 +481,7 @@ class H2Protocol:
             pass
         except priority.TooManyStreamsError:
             # The priority tree is full (of idle prioritised streams)
-            self.connection.reset_stream(request.stream_id, h2.errors.ErrorCodes.REFUSED_STREAM)
+            self._refuse_stream(request.stream_id, h2.errors.ErrorCodes.REFUSED_STREAM)
             return
         else:
             self.priority.block(request.stream_id)
